@@ -30,17 +30,18 @@ BOUND = ("A: 25 (quick) / 250 (thorough) random flat architectures (1-3 memories
          "subsets (thorough: all 4096 (F1, F2, F3)), and a composite architecture (Main explicit, PE x2 [Buf RaaamEDRAM, Reg JiaShiftAdd mixed, MAC IntMAC], "
          "2 Einsums) under the 64 histories (F1, F2, F1) over 8 subsets {all, one kind off, area only, energy only, none} (thorough: all 256 (F1, F2, F1) "
          "and 240 (F1, F2, F2)); "
-         "C: 150 (quick) / 1500 (thorough) seeded random histories of 1-4 calls, architectures of 1-3 memories + compute (+ optional Container), "
+         "C: 220 (quick) / 2200 (thorough) seeded random histories of 1-4 calls, architectures of 1-3 memories + compute (+ optional Container), "
          "each component explicit / model-backed / mixed (models: RaaamEDRAM, AladdinRegister, JiaShiftAdd, AladdinCounter, IntMAC, Dummy), "
          "scale factors and n_parallel_instances from {0.5, 1, 2, 3, 4, 5, 7}, workloads of 0 / 2 / 3 Einsums, targets {last, original, earlier returned}, "
-         "5 copy modes, 16 flag subsets, Einsum names {None, each Einsum}")
+         "5 copy modes, 16 flag subsets, Einsum names {None, each Einsum}, the Container's fan-out changed before a call with probability 0.2; "
+         "plus 14 core histories in which the Container's fan-out changes between the calls")
 RULE = ("The real Spec.calculate_component_costs is called along a history of calls on real Specs parsed from YAML. The oracle tracks, per spec object, which cost "
         "kinds (area, leak, energy, throughput) earlier calls have computed. Required after every call on a target T returning R: (1) for every component and "
         "every kind already computed in T, R has exactly T's value from before the call (per-instance area, leak_power, per-action energy, per-action "
         "throughput; total_area / total_leak_power are not compared) -- also when the kind is switched off in this call and requested again later, when T "
         "is a copy (copy.copy / deepcopy / model_copy / model_copy(deep=True)) of a costed spec, and when the call names another Einsum than the call "
         "that computed the kind: only architectures whose attributes do not depend on the workload are used, so a changed einsum_name must not change any "
-        "value; (2) T's own computed values are not altered by the call; (3) a kind computed for the first time by this call (late in a history, after "
+        "value, and when the fan-out of a Container above the components was changed between the calls; (2) T's own computed values are not altered by the call; (3) a kind computed for the first time by this call (late in a history, after "
         "copies, on the original spec again) has the value a direct calculation gives: explicit number, or the model's value obtained once from an unscaled "
         "one-component spec, times the scale factors and n_parallel_instances written out in the oracle (rel. tol. 1e-9); (4) no call raises. "
         "A call with every flag off must return the spec unchanged.")
@@ -213,7 +214,8 @@ def _copy_of(s, mode):
 # ---------------------------------------------------------------------------------------------- one history
 def _history(desc, history):
     """desc: {comps, container, einsums}; history: list of steps {on: index into the list of specs so far (0 = the
-    original, k = the spec returned by call k), copy: mode, flags: {kind: bool}, einsum: None | name}.
+    original, k = the spec returned by call k), copy: mode, flags: {kind: bool}, einsum: None | name, bump: None | new
+    fan-out of the Container, set on the target just before the call}.
     Returns (ok, info, number of real calls)"""
     comps = desc["comps"]
     y = _yaml(None, comps, desc.get("container"), desc.get("einsums", 0))
@@ -239,6 +241,10 @@ def _history(desc, history):
                 T = _copy_of(T, st["copy"])
                 if _snap(T, names) != before_copy:
                     return fail(step, None, f"{st['copy']} of the spec", _snap(T, names), before_copy)
+            if st.get("bump") and desc.get("container"):
+                # the hierarchy above the components changes between two calls: totals may follow it, the
+                # per-instance values may not
+                T.arch.find(desc["container"]["name"]).spatial[0].fanout = st["bump"]
             pre = _snap(T, names)
             calls += 1
             R = T.calculate_component_costs(einsum_name=st.get("einsum"), **flags)
@@ -343,6 +349,14 @@ def _core(thorough):
             cases += 1
             if not ok:
                 return ev, cases, info
+    for desc in (_core_desc(True), _core_desc(False)):  # the Container's fan-out changes between the calls
+        for f in SUBSETS8[:-1]:
+            ok, info, calls = _history(desc, [{"on": 0, "copy": "none", "flags": ALL, "einsum": None}, {"on": 1, "copy": "none", "flags": f, "einsum": None, "bump": 5},
+                                              {"on": 2, "copy": "none", "flags": ALL, "einsum": None, "bump": 1}])
+            ev += calls
+            cases += 1
+            if not ok:
+                return ev, cases, info
     return ev, cases, None
 
 
@@ -356,12 +370,13 @@ def _rand_history(rnd, einsums):
         on = i if r < 0.6 else 0 if r < 0.8 else rnd.randint(0, i)
         r = rnd.random()
         flags = dict(ALL) if r < 0.35 else rnd.choice(SUBSETS) if r < 0.45 else {k: rnd.random() < 0.6 for k in KINDS}
-        hist.append({"on": on, "copy": rnd.choice(COPY_MODES) if rnd.random() < 0.45 else "none", "flags": flags, "einsum": rnd.choice(names)})
+        hist.append({"on": on, "copy": rnd.choice(COPY_MODES) if rnd.random() < 0.45 else "none", "flags": flags, "einsum": rnd.choice(names),
+                     "bump": rnd.choice([1, 4, 5]) if rnd.random() < 0.2 else None})
     return hist
 
 
-# fixed histories run on every random architecture class (round-robin), so each pattern named in the property's
-# strengthening occurs whatever the seed
+# fixed histories: every third random architecture gets the next one (round-robin), so each pattern named in the
+# property's strengthening occurs whatever the seed
 def _fixed_histories(einsums):
     e = [None] + [f"E{i}" for i in range(einsums)]
     off = lambda k: {**ALL, k: False}
@@ -377,6 +392,10 @@ def _fixed_histories(einsums):
     out.append(H((0, "none", ALL, 0), (1, "none", ALL, 1), (2, "none", ALL, 2), (0, "none", ALL, 1)))  # Einsum changes; original again
     out.append(H((0, "none", ALL, 1), (0, "none", ALL, 2), (0, "none", ALL, 0), (1, "none", ALL, 2)))  # original three times, then the first result
     out.append(H((0, "none", only("throughput"), 2), (1, "none", only("leak"), 1), (2, "none", ALL, 0), (3, "deepcopy", ALL, 2)))
+    for h in (H((0, "none", ALL, 0), (1, "none", ALL, 0), (2, "none", only("area"), 1)), H((0, "none", only("area"), 0), (1, "model_copy", ALL, 0), (0, "none", ALL, 0), (2, "none", off("area"), 0))):
+        for st, b in zip(h[1:], (5, 1, 4)):  # the Container's fan-out changes before the later calls
+            st["bump"] = b
+        out.append(h)
     return out
 
 
@@ -392,12 +411,14 @@ def _random(rnd, n):
         if k % 3 == 2:
             fx = _fixed_histories(einsums)
             hist = fx[(k // 3) % len(fx)]
+            if any(h.get("bump") for h in hist) and not container:
+                container = desc["container"] = {"before": 0, "name": "PE", "fan": 2}
         else:
             hist = _rand_history(rnd, einsums)
         seen.add(repr((desc, hist)))
         if len(samples) < 6 and k % 7 == 0:
             samples.append("; ".join(f"{c['name']}:{c.get('src', 'explicit')}{'/' + c['cls'] if c.get('cls') else ''}" for c in comps) + f" | {einsums} einsums | " +
-                           " -> ".join(f"on{h['on']}{'' if h['copy'] == 'none' else '.' + h['copy']}({','.join(x for x in KINDS if h['flags'][x]) or 'none'};{h['einsum']})" for h in hist))
+                           " -> ".join(f"on{h['on']}{'' if h['copy'] == 'none' else '.' + h['copy']}{'.fanout=' + str(h['bump']) if h.get('bump') else ''}({','.join(x for x in KINDS if h['flags'][x]) or 'none'};{h['einsum']})" for h in hist))
         ok, info, calls = _history(desc, hist)
         ev += calls
         if not ok:
@@ -411,6 +432,17 @@ def _failed(info):
 
 
 def _run(seed, thorough):
+    import logging
+
+    prev = logging.root.manager.disable
+    logging.disable(logging.CRITICAL)  # the modeling log messages of ~1500 calculations are not wanted on stderr
+    try:
+        return _run_(seed, thorough)
+    finally:
+        logging.disable(prev)
+
+
+def _run_(seed, thorough):
     rnd = random.Random(seed)
     ev, distinct, bad = _sweep(rnd, 250 if thorough else 25)
     if bad:
@@ -421,7 +453,7 @@ def _run(seed, thorough):
     ev_b, cases_b, bad = _core(thorough)
     if bad:
         return _failed(bad)
-    ev_c, distinct_c, bad, samples = _random(random.Random(seed * 7919 + 1), 1500 if thorough else 150)
+    ev_c, distinct_c, bad, samples = _random(random.Random(seed * 7919 + 1), 2200 if thorough else 220)
     if bad:
         return _failed(bad)
     samples = ["F6 witness: Memory area 10, area_scale 2, n_parallel_instances 2; three calls", f"core: {cases_b} flag histories on Main PE[Buf MAC] (explicit) and Main(explicit) PE[Buf(RaaamEDRAM) Reg(JiaShiftAdd, mixed) MAC(IntMAC)]"] + samples
